@@ -24,6 +24,12 @@ def gen(rng, i, quick, suite=None, provs=None):
     g = HistGen(rng, n_pool=rng.choice([6, 9, 12]) if quick else rng.choice([6, 9, 12, 18]), name=f"c01-{i}", suite=suite, providers=provs, storage="mem")
     g.start()
     ops = g.ops
+    # in half of the histories the application's rules say that custom proposals need no update
+    # path (the same rules for everybody): whether a commit carries one is then decided by its
+    # other proposals alone
+    if i % 2 == 0:
+        for m in g.pool:
+            ops.append({"op": "opts", "who": m, "custom_needs_path": False})
     marks = []     # (observe index, expected epoch)
     kinds = {}
     nrounds = 9 if quick else 16
@@ -66,10 +72,17 @@ def gen(rng, i, quick, suite=None, provs=None):
                 o["gce"] = "%02x%02x" % (r, i % 256)
             else:
                 o["custom"] = "c0%02x" % r
+                # a custom proposal next to a removal: the removal still forces an update path
+                if len(g.in_group) >= 4 and rng.chance(1, 2):
+                    gone = rng.choice([m for m in g.in_group if m != c])
+                    o["remove_names"] = [gone]
             ops.append(o)
             for m in rng.shuffle([x for x in g.in_group if x != c]):
                 ops.append({"op": "deliver", "to": m, "msg": cid})
             ops.append({"op": "deliver", "to": c, "msg": cid} if rng.chance(1, 3) else {"op": "apply", "who": c})
+            for gone in o.get("remove_names", []):
+                g.in_group.remove(gone)
+                g.removed.append(gone)
             g.epoch += 1
             g.commit_ids.append(cid)
             ops.append({"op": "observe", "who": c, "observe": "all"})
@@ -226,6 +239,17 @@ def judge(items, recs):
             failing.append({"what": what, "script": sc["name"], "suite": meta["suite"], "providers": meta["providers"], "record": bad[0], "op": o, "before": sc["ops"][max(0, bad[0]["i"] - 5):bad[0]["i"]]})
             continue
         byi = {r["i"]: r for r in rs if "i" in r}
+        # RFC 9420 12.4: a commit whose proposal list is empty or holds an Update, Remove,
+        # ExternalInit or GroupContextExtensions proposal must carry an update path (only then
+        # is the removed / updated key material replaced)
+        path_of = {sc["ops"][r["i"]].get("id"): (r.get("info") or {}).get("path") for r in rs if r.get("op") == "commit" and r.get("ok")}
+        for r in rs:
+            if r.get("op") == "deliver" and r.get("ok") and (r.get("info") or {}).get("kind") == "commit":
+                cidm = sc["ops"][r["i"]].get("msg")
+                applied = (r.get("info") or {}).get("applied") or []
+                if path_of.get(cidm) is False and (not applied or any(k in ("remove", "update", "gce", "extinit") for k in applied)):
+                    failing.append({"what": "a commit that removes / updates / changes the context (or is empty) carries NO update path: the members it removes can compute the next epoch", "script": sc["name"], "commit": cidm, "applied": applied})
+                    break
         for kk, v in meta["kinds"].items():
             stats["kinds"][kk] = stats["kinds"].get(kk, 0) + v
         stats["suites"][str(meta["suite"])] = stats["suites"].get(str(meta["suite"]), 0) + 1
